@@ -8,9 +8,9 @@ import (
 )
 
 //verif:pkg ./xmath/xrand
-//verif:case C19 quick VerifSample 0..3 1..3 0..3
-//verif:case C19 thorough VerifSample 4 1..3 0..3
-//verif:case C19 quick VerifShuffle 0..4
+//verif:case C19 quick VerifSample 0..3 1..3 0..3 @repeat=300
+//verif:case C19 thorough VerifSample 4 1..3 0..3 @repeat=300
+//verif:case C19 quick VerifShuffle 0..4 @repeat=300
 
 // VerifSample: Sample / SampleSlice / SampleIterator / SampleStream return exactly min(k, n)
 // items taken from pairwise distinct positions of the input. rand is an arbitrary-value stub,
